@@ -63,6 +63,39 @@ def key_entry(res, fmt, name):
     return None
 
 
+def fingerprint_problems(res, fmt, plain):
+    """Every fingerprint shown is the standard fingerprint of a *plain* public key the peer presented, under that key's name (the RSA
+    family under ssh-rsa); certificates get none; every presented RSA / Ed25519 key has its SHA-256 entry.  plain: {name: blob bytes}"""
+    probs = []
+    want = {}
+    for name, blob in plain.items():
+        n = 'ssh-rsa' if name in RSA_FAMILY else name
+        want[(n, 'SHA256')] = wire.fingerprint_sha256(blob)
+        want[(n, 'MD5')] = wire.fingerprint_md5(blob)
+    shown = []
+    if fmt == 'json':
+        for f in json.loads(res.stdout).get('fingerprints', []):
+            shown.append((f.get('hostkey'), f.get('hash_alg'), f.get('hash')))
+    else:
+        for l in report.TextReport(res.stdout).fin:
+            m = re.match(r'^(\S+): (SHA256|MD5):(\S+)', l)
+            if m:
+                shown.append((m.group(1), m.group(2), m.group(3)))
+            else:
+                probs.append(('unparsable-fin-line', l))
+    for name, alg, h in shown:
+        exp = want.get((name, alg))
+        exp_h = None if exp is None else exp.split(':', 1)[1]
+        if exp is None:
+            probs.append(('fingerprint-of-a-key-not-presented-as-plain-key', [name, alg, h]))
+        elif h != exp_h:
+            probs.append(('fingerprint-differs-from-presented-blob', [name, alg, h, exp_h]))
+    for (n, alg), exp in want.items():
+        if alg == 'SHA256' and n in ('ssh-rsa', 'ssh-ed25519') and not any(s[0] == n and s[1] == alg for s in shown):
+            probs.append(('fingerprint-missing', [n, alg]))
+    return probs
+
+
 def size_notes(notes):
     return sorted((lv, t) for lv, t in notes if SIZE_NOTE.search(t))
 
@@ -195,6 +228,8 @@ def work_cert(chunk, st):
             st.violation('cert:key-not-reported', {'cert': cname})
             continue
         tag = '%s-ca:%s' % (cak, size_class(cab) if cak == 'rsa' else cab)
+        for sig, what in fingerprint_problems(res, fmt, {}):
+            st.violation('cert:%s' % sig, {'cert': cname, 'ca': [cak, cab], 'fmt': fmt, 'what': what})
         if fmt == 'json':
             want_ca_type = ca_type
             if e['casize'] != cab or e['catype'] != want_ca_type:
@@ -297,6 +332,9 @@ def work_multi(chunk, st):
         if res.status not in (0, 2, 3):
             st.violation('multi:audit-failed', dict(case, status=res.status))
             continue
+        plain = {k: wire.serialize(hk['ssh-rsa' if k in RSA_FAMILY else k]) for k in keys if '-cert-' not in k and k != 'ecdsa-sha2-nistp256'}
+        for sig, what in fingerprint_problems(res, fmt, dict(plain, **({'ecdsa-sha2-nistp256': wire.serialize(hk['ecdsa-sha2-nistp256'])} if ecd else {}))):
+            st.violation('multi:%s' % sig, dict(case, what=what))
         for k in keys:
             e = key_entry(res, fmt, k)
             tr = truth[k]
